@@ -178,9 +178,53 @@ def guarded_subtractions(F, fn):
     return res
 
 
+def index_loop_sites(fn):
+    """Panic sites discharged by the shape of a counting loop over a collection (symex.find_index_loops: `i` starts at 0,
+    the body runs only under `i < v.len()`, `i += 1` once per iteration, v is not changed in the loop): `v[i]` is in bounds
+    and `i + 1` cannot overflow (i < len <= isize::MAX)."""
+    from . import symex as S_
+    res = set()
+    try:
+        ils = S_.find_index_loops(fn)
+        loops = fn.natural_loops()
+    except Exception:
+        return res
+    for h, il in ils.items():
+        body = loops.get(h, set())
+        i = il["counter"]
+
+        def is_counter(o):
+            if o.get("k") not in ("copy", "move") or o["p"]["pj"]:
+                return False
+            if o["p"]["l"] == i:
+                return True
+            d = fn.single_def(o["p"]["l"])
+            return bool(d and d["kind"] == "assign" and d["bb"] in body and d["stmt"]["rv"]["k"] == "use" and d["stmt"]["rv"]["op"].get("k") in ("copy", "move") and d["stmt"]["rv"]["op"]["p"]["l"] == i and not d["stmt"]["rv"]["op"]["p"]["pj"])
+        for bb in body:
+            t = fn.term(bb)
+            if t["k"] == "assert" and "Overflow" in t["msg"]:
+                if any(st["k"] == "assign" and st["rv"]["k"] == "binop" and st["rv"]["op"] == "AddWithOverflow" and is_counter(st["rv"]["a"]) and st["rv"]["b"].get("k") == "const" for st in fn.blocks[bb]["stmts"]):
+                    res.add(bb)
+            if t["k"] == "call" and re.search(r"ops::Index<usize>>::index$", M.call_name(t)) and len(t["args"]) == 2 and is_counter(t["args"][1]):
+                a0 = t["args"][0]
+                d0 = fn.single_def(a0["p"]["l"]) if a0.get("k") in ("copy", "move") and not a0["p"]["pj"] else None
+                if d0 and d0["kind"] == "assign" and d0["stmt"]["rv"]["k"] == "ref" and d0["stmt"]["rv"]["p"]["l"] == il["coll"]["l"] and [e.get("k") for e in d0["stmt"]["rv"]["p"]["pj"]] == [e.get("k") for e in il["coll"]["pj"]] and [e.get("i") for e in d0["stmt"]["rv"]["p"]["pj"]] == [e.get("i") for e in il["coll"]["pj"]]:
+                    res.add(bb)
+            if t["k"] == "assert" and "BoundsCheck" in t["msg"]:
+                # array/slice indexing v[i] compiled to a bounds check
+                res_ok = False
+                for o in (t.get("ops") or []):
+                    if is_counter(o):
+                        res_ok = True
+                if res_ok:
+                    res.add(bb)
+    return res
+
+
 def sites(fn):
     out = []
     guarded = guarded_subtractions(fn.facts, fn) if hasattr(fn, "facts") and fn.facts is not None else set()
+    guarded = set(guarded) | index_loop_sites(fn)
     for bb in sorted(fn.reachable()):
         if bb in guarded:
             continue
